@@ -28,7 +28,9 @@ def oracle(ctx, case, res, real):
         elif real["error"] != "cmdline":
             pipeprop.crash_failures(ctx, "C16", case, real)
         return
-    if case["paired"] or not simple(argv):
+    if case["paired"]:
+        return paired_oracle(ctx, case, real)
+    if not simple(argv):
         return
     import dnaio
     import cutadapt.cli as cli
@@ -88,6 +90,104 @@ def oracle(ctx, case, res, real):
     if real.get("reverse_complemented") != nrc:
         ctx.failures.append(Failure("C16/count", "reverse_complemented counter differs from the number of reads output in reverse-complement orientation",
                                     inp, real.get("reverse_complemented"), nrc))
+
+
+def paired_oracle(ctx, case, real):
+    """paired --revcomp: the pair as given against the pair with its mates swapped; the orientation with the strictly higher *total* match
+    score (all matches of both reads, all rounds) is kept, ties and 'no match when swapped' keep the pair as given"""
+    argv = case["argv"]
+    allowed = {"--no-index", "-a", "-g", "-b", "-A", "-G", "-B", "--action", "--times", "--revcomp", "-o", "-p", "-e", "-O", "--no-indels"}
+    toks = [t for t in argv if t.startswith("-") and not t.lstrip("-").replace(".", "").isdigit()]
+    if not all(t in allowed for t in toks) or "{name" in argv[argv.index("-o") + 1]:
+        return
+    import dnaio
+    import logging
+    import cutadapt.cli as cli
+    from cutadapt.modifiers import AdapterCutter
+    parser = cli.get_argument_parser()
+    _, in_args = pipe.inputs_of(case)
+    args = parser.parse_args(list(argv) + in_args)
+    logging.disable(logging.CRITICAL)
+    try:
+        ads1, ads2 = cli.adapters_from_args(args)
+    finally:
+        logging.disable(logging.NOTSET)
+    action = None if args.action == "none" else args.action
+    got1 = [tuple(r) for r in real["files"].get("o1.fastq", [])]
+    got2 = [tuple(r) for r in real["files"].get("o2.fastq", [])]
+    if len(got1) != len(case["reads1"]) or len(got2) != len(case["reads2"]):
+        return
+    inp = case_input(case)
+    nrc = 0
+    for k, ((n1, s1, q1), (n2, s2, q2)) in enumerate(zip(case["reads1"], case["reads2"])):
+        def trim(ads, n, s_, q_):
+            if not ads:
+                return dnaio.SequenceRecord(n, s_, q_), []
+            return AdapterCutter(ads, args.times, action, args.index).match_and_trim(dnaio.SequenceRecord(n, s_, q_))
+        f1, fm1 = trim(ads1, n1, s1, q1)
+        f2, fm2 = trim(ads2, n2, s2, q2)
+        w1, wm1 = trim(ads1, n2, s2, q2)
+        w2, wm2 = trim(ads2, n1, s1, q1)
+        fs = sum(m.score for m in fm1) + sum(m.score for m in fm2)
+        ws = sum(m.score for m in wm1) + sum(m.score for m in wm2)
+        use = bool(wm1 or wm2) and ws > fs
+        nrc += use
+        e1, e2 = (w1, w2) if use else (f1, f2)
+        exp = ((e1.name + (" rc" if use else ""), e1.sequence, e1.qualities), (e2.name + (" rc" if use else ""), e2.sequence, e2.qualities))
+        if (got1[k], got2[k]) != exp:
+            ctx.failures.append(Failure("C16/wrong-orientation-paired", "paired --revcomp result differs from 'as given unless the swapped pair has a match and a strictly "
+                                        "higher total score over both reads'", inp, [list(got1[k]), list(got2[k])],
+                                        [list(exp[0]), list(exp[1]), dict(as_given_score=fs, swapped_score=ws)]))
+        if use:
+            ctx.nontriv(("rc-pair", s1, s2))
+        if fm1 and fm2:
+            ctx.count("paired:both-mates-match-as-given")
+        if wm1 and wm2:
+            ctx.count("paired:both-mates-match-swapped")
+    ctx.count("paired-oracle")
+    if real.get("reverse_complemented") != nrc:
+        ctx.failures.append(Failure("C16/count", "reverse_complemented counter differs from the number of pairs output swapped", inp,
+                                    real.get("reverse_complemented"), nrc))
+
+
+def directed_paired(ctx):
+    """adapters on both reads; pairs in which both mates match in both orientations with different per-mate scores (one mismatch here, a
+    partial occurrence there), so that only the total over both reads decides"""
+    rng = ctx.rng
+    cases = []
+    for _ in range(ctx.scale(40, 500)):
+        A1, A2 = rng.choice([("AAAGGGCCCTTTGATC", "GATTACAGATTCCGGA"), ("ACGTTGCAAGGTCCAT", "TTGCACCGTAAGGCTA")])
+        f1, f2 = rng.choice([("-a", "-A"), ("-g", "-G"), ("-a", "-G"), ("-b", "-A")])
+        argv = ["--no-index"] if rng.random() < 0.6 else []
+        argv += [f1, "a0=" + A1, f2, "b0=" + A2, "--revcomp"]
+        if rng.random() < 0.3:
+            argv += ["--times", "2"]
+        if rng.random() < 0.3:
+            argv += ["--action", rng.choice(["mask", "lowercase", "none"])]
+        argv += ["-o", "{dir}/o1.fastq", "-p", "{dir}/o2.fastq"]
+        def inst(ad):
+            k = rng.random()
+            x = ad
+            if k < 0.35:
+                j = rng.randrange(len(x))
+                x = x[:j] + rng.choice("ACGT") + x[j + 1:]
+            elif k < 0.55:
+                x = x[: rng.randint(5, len(x))] if rng.random() < 0.5 else x[rng.randint(1, 8):]
+            elif k < 0.65:
+                return ""
+            return x
+        def mate():
+            body = pipe.rs(rng, rng.randint(4, 12))
+            parts = [inst(rng.choice([A1, A2])) for _ in range(rng.randint(1, 2))]
+            s_ = body + pipe.rs(rng, rng.randint(0, 3)).join(parts) if rng.random() < 0.5 else parts[0] + body + "".join(parts[1:])
+            return s_, "".join(chr(33 + rng.randint(2, 40)) for _ in s_)
+        r1, r2 = [], []
+        for i in range(6):
+            a, b = mate(), mate()
+            r1.append((f"r{i}", *a))
+            r2.append((f"r{i}", *b))
+        cases.append(dict(argv=argv, paired=True, reads1=r1, reads2=r2, with_qual=True, interleaved_in=False))
+    return cases
 
 
 def directed(ctx):
@@ -152,13 +252,13 @@ def run(ctx):
                  "random command lines with --revcomp (single and paired) plus directed single-end cases with the adapter on either strand, high error "
                  "rates (negative scores), ties, every action and --times; non-trivial = distinct read that is output reverse-complemented",
                  nontrivial=lambda c, r: False)
-    for case, res, real, model in pipe.run_cases(ctx, directed(ctx)):
+    for case, res, real, model in pipe.run_cases(ctx, directed(ctx) + directed_paired(ctx)):
         ctx.count("directed")
         oracle(ctx, case, res, real)
 
 
 def extended_search(ctx):
-    for case, res, real, model in pipe.run_cases(ctx, [c for _ in range(6) for c in directed(ctx)]):
+    for case, res, real, model in pipe.run_cases(ctx, [c for _ in range(6) for c in directed(ctx) + directed_paired(ctx)]):
         oracle(ctx, case, res, real)
 
 
